@@ -281,7 +281,10 @@ class Executor:
         self.stats["solver_checks"] += 1
         self.stats["solver_time"] += time.time() - t
         if r == z3.unknown:
-            raise Unsupported("solver returned unknown")
+            # feasibility only prunes: keeping a path that might be infeasible is sound (the
+            # deciding queries are asked again on it, with their own verdict)
+            self.stats["feasibility_unknown"] = self.stats.get("feasibility_unknown", 0) + 1
+            return True
         return r == z3.sat
 
     def model_for(self, pc, extra=None):
